@@ -802,3 +802,189 @@ Proof.
   - intros rs S. rewrite read_ring_cells by assumption. rewrite read_bounds_cells by assumption.
     apply write_cells_ring; assumption.
 Qed.
+
+(* ------------------------------------------------------------------------- *)
+(* second pass: data variables sharing containers                             *)
+(* ------------------------------------------------------------------------- *)
+Lemma lookup_cons_other p q gid vg : q <> p ->
+  lookup_geometry p ((q, gid) :: vg) = lookup_geometry p vg.
+Proof.
+  intro H. unfold lookup_geometry. simpl.
+  destruct (Nat.eqb q p) eqn:E; [apply Nat.eqb_eq in E; congruence|reflexivity].
+Qed.
+
+Lemma lookup_cons_same p gid vg : lookup_geometry p ((p, gid) :: vg) = Some gid.
+Proof. unfold lookup_geometry. simpl. rewrite Nat.eqb_refl. reflexivity. Qed.
+
+Lemma parse_step_other ra conts st q d p : q <> p ->
+  lookup_geometry p (snd (parse_step_gen ra conts st (q, d))) = lookup_geometry p (snd st).
+Proof.
+  intro H. destruct st as [parsed vg]. unfold parse_step_gen.
+  destruct (mem (d_gid d) parsed).
+  - destruct ra; simpl; [apply lookup_cons_other; assumption|reflexivity].
+  - destruct (nth_error conts (d_gid d)) as [c|]; [|reflexivity].
+    destruct (accepted (c_g c) && mem (cont_celldim c) (d_dims d)); simpl;
+      [apply lookup_cons_other; assumption|reflexivity].
+Qed.
+
+Lemma lookup_preserved ra conts : forall r s' st p, p < s' ->
+  lookup_geometry p (snd (fold_left (parse_step_gen ra conts) (combine (seq s' (length r)) r) st))
+  = lookup_geometry p (snd st).
+Proof.
+  induction r as [|d r IH]; intros s' st p H; [reflexivity|].
+  simpl. rewrite IH by lia. apply parse_step_other. lia.
+Qed.
+
+Lemma parse_step_records conts st p d : good_dvar conts d ->
+  lookup_geometry p (snd (parse_step_gen true conts st (p, d))) = Some (d_gid d).
+Proof.
+  intros [c [Hc [Ha Hm]]]. destruct st as [parsed vg]. unfold parse_step_gen.
+  destruct (mem (d_gid d) parsed); simpl; [apply lookup_cons_same|].
+  rewrite Hc, Ha, Hm. simpl. apply lookup_cons_same.
+Qed.
+
+Lemma lookup_after_fold conts : forall l s st i d,
+  nth_error l i = Some d -> good_dvar conts d ->
+  lookup_geometry (s + i)
+    (snd (fold_left (parse_step_gen true conts) (combine (seq s (length l)) l) st)) = Some (d_gid d).
+Proof.
+  induction l as [|x r IH]; intros s st i d Hn G; [destruct i; discriminate|].
+  destruct i as [|i]; simpl in Hn.
+  - inversion Hn; subst. simpl. rewrite lookup_preserved by lia.
+    rewrite Nat.add_0_r. apply parse_step_records. assumption.
+  - simpl. replace (s + S i) with (S s + i) by lia. apply IH; assumption.
+Qed.
+
+(* every data variable that names a container is recorded with that container, however many
+   other variables named it (or other containers) before *)
+Lemma variable_sees_its_container conts dvs i d :
+  nth_error dvs i = Some d -> good_dvar conts d ->
+  lookup_geometry i (snd (parse_all_gen true conts dvs)) = Some (d_gid d).
+Proof. intros H G. unfold parse_all_gen. apply (lookup_after_fold conts dvs 0 ([], []) i d H G). Qed.
+
+Lemma map_seq_nth {A B} (f : nat -> B) (g : A -> B) (l : list A) :
+  forall s, (forall i a, nth_error l i = Some a -> f (s + i) = g a) ->
+  map f (seq s (length l)) = map g l.
+Proof.
+  induction l as [|a r IH]; intros s H; [reflexivity|].
+  simpl. f_equal.
+  - specialize (H 0 a eq_refl). rewrite Nat.add_0_r in H. exact H.
+  - apply IH. intros i b Hb. replace (S s + i) with (s + S i) by lia. apply H. exact Hb.
+Qed.
+
+Lemma existsb_false_in {A} (f : A -> bool) l : (forall x, In x l -> f x = false) -> existsb f l = false.
+Proof. induction l; simpl; intro H; [reflexivity|]. rewrite H by auto. apply IHl. auto. Qed.
+
+Lemma in_combine_seq {A} (l : list A) s p d :
+  In (p, d) (combine (seq s (length l)) l) -> exists i, p = s + i /\ nth_error l i = Some d.
+Proof.
+  revert s. induction l as [|a r IH]; intros s H; [contradiction|].
+  simpl in H. destruct H as [H|H].
+  - inversion H; subst. exists 0. split; [lia|reflexivity].
+  - apply IH in H as [i [E N]]. exists (S i). split; [lia|exact N].
+Qed.
+
+(* reading a dataset: every data variable is given the cells of the container it names *)
+Lemma read_dataset_own conts dvs :
+  Forall (good_dvar conts) dvs ->
+  read_dataset conts dvs = Ok (map (own_cells conts) dvs).
+Proof.
+  intro F. unfold read_dataset, read_dataset_gen.
+  destruct (parse_all_gen true conts dvs) as [parsed vg] eqn:P.
+  assert (forall i d, nth_error dvs i = Some d -> lookup_geometry i vg = Some (d_gid d)) as L.
+  { intros i d H. replace vg with (snd (parse_all_gen true conts dvs)) by (rewrite P; reflexivity).
+    apply variable_sees_its_container; [assumption|].
+    rewrite Forall_forall in F. apply F. eapply nth_error_In. exact H. }
+  rewrite existsb_false_in.
+  2:{ intros [p d] Hin. apply in_combine_seq in Hin as [i [E N]]. simpl in E. subst p.
+      rewrite (L i d N).
+      rewrite Forall_forall in F. destruct (F d (nth_error_In _ _ N)) as [c [Hc [_ Hm]]].
+      rewrite Hc, Hm. reflexivity. }
+  f_equal. apply map_seq_nth.
+  intros i d N. simpl. rewrite (L i d N). unfold var_cells_gen, own_cells, ring_array_gen.
+  destruct (nth_error conts (d_gid d)) as [c|] eqn:Hc; reflexivity.
+Qed.
+
+(* ------------------------------------------------------------------------- *)
+(* second pass: several fields written to one dataset                         *)
+(* ------------------------------------------------------------------------- *)
+Lemma write_key_of (a : arr3) (ring : option arr2) : write a ring = write_key (key_of a ring).
+Proof.
+  unfold write, write_gen, write_part_node_count, key_of, write_key, part_counts, write_node_count.
+  assert (n_part_slots a = match map (map count_some) a with [] => 0 | c :: _ => length c end) as ->
+    by (destruct a; simpl; [reflexivity|symmetry; apply map_length]).
+  rewrite map_map. destruct ring; reflexivity.
+Qed.
+
+Definition wentry_ok (e : wentry) : Prop :=
+  let '(n, _, part, w) := e in w = write_key (n, fst part, snd part).
+
+Lemma zs_eqb_eq (l1 l2 : list Z) : list_eqb Z.eqb l1 l2 = true <-> l1 = l2.
+Proof. apply list_eqb_eq. intros. apply Z.eqb_eq. Qed.
+
+Lemma nats2_eqb_eq (l1 l2 : list (list nat)) : nats2_eqb l1 l2 = true <-> l1 = l2.
+Proof. apply list_eqb_eq. intros. apply list_eqb_eq. intros. apply Nat.eqb_eq. Qed.
+
+Lemma ozs_eqb_eq (a b : option (list Z)) : option_eqb (list_eqb Z.eqb) a b = true <-> a = b.
+Proof.
+  destruct a, b; simpl; split; intro H; try discriminate; try reflexivity.
+  - f_equal. apply zs_eqb_eq. exact H.
+  - inversion H; subst. apply zs_eqb_eq. reflexivity.
+Qed.
+
+Lemma write_fields_transparent : forall fs seen,
+  Forall wentry_ok seen ->
+  write_fields_gen true seen fs = map (fun f => write (f_a f) (f_ring f)) fs.
+Proof.
+  induction fs as [|f r IH]; intros seen Inv; [reflexivity|].
+  cbn [write_fields_gen map].
+  destruct (key_of (f_a f) (f_ring f)) as [[nodes counts] wr] eqn:K.
+  assert (Forall wentry_ok (seen ++ [(nodes, f_gdim f, (counts, wr), write (f_a f) (f_ring f))])) as Inv'.
+  { apply Forall_app. split; [exact Inv|]. constructor; [|constructor].
+    unfold wentry_ok. simpl. rewrite write_key_of, K. reflexivity. }
+  destruct (find _ seen) as [[[[n gd] part] w]|] eqn:Fd.
+  - destruct (Nat.eqb gd (f_gdim f) && (negb true || part_eqb part (counts, wr))) eqn:C.
+    + f_equal; [|apply IH; exact Inv].
+      apply find_some in Fd as [Hin Hn]. apply zs_eqb_eq in Hn. subst n.
+      apply andb_true_iff in C as [_ C]. simpl in C.
+      unfold part_eqb in C. apply andb_true_iff in C as [C1 C2]. simpl in C1, C2.
+      apply nats2_eqb_eq in C1. apply ozs_eqb_eq in C2.
+      rewrite Forall_forall in Inv. specialize (Inv _ Hin). unfold wentry_ok in Inv.
+      rewrite Inv, C1, C2, write_key_of, K. reflexivity.
+    + f_equal. apply IH. exact Inv'.
+  - f_equal. apply IH. exact Inv'.
+Qed.
+
+Lemma write_fields_independent (fs : list wfield) :
+  write_fields fs = map (fun f => write (f_a f) (f_ring f)) fs.
+Proof. apply write_fields_transparent. constructor. Qed.
+
+(* corollaries in terms of cells *)
+Lemma dataset_variable_cells conts dvs i d c (cs : cells) :
+  Forall (good_dvar conts) dvs ->
+  nth_error dvs i = Some d -> nth_error conts (d_gid d) = Some c ->
+  c_g c = container_for cs true None -> c_datas c = [enc_nodes cs] -> wf_cells cs ->
+  exists l, read_dataset conts dvs = Ok l /\ nth_error l i = Some (Some ([pad3 cs], None)).
+Proof.
+  intros F N Hc Hg Hd W. rewrite read_dataset_own by assumption. eexists. split; [reflexivity|].
+  rewrite (map_nth_error (own_cells conts) i dvs N). unfold own_cells. rewrite Hc, Hg, Hd.
+  cbn [map]. rewrite read_bounds_cells by assumption. reflexivity.
+Qed.
+
+Definition field_of_cells (x : cells * nat) : wfield :=
+  {| f_a := pad3 (fst x); f_ring := None; f_gdim := snd x |}.
+
+Lemma fields_decode_own_cells (css : list (cells * nat)) i cs gd :
+  nth_error css i = Some (cs, gd) -> wf_cells cs -> cs <> [] ->
+  exists w, nth_error (write_fields (map field_of_cells css)) i = Some (Ok w) /\
+            accepted (container_of w) = true /\
+            read_bounds (container_of w) (w_nodes w) = pad3 cs /\
+            spec_decode_container (container_of w) (w_nodes w) = Some cs.
+Proof.
+  intros N W H. rewrite write_fields_independent. rewrite map_map.
+  rewrite (map_nth_error _ i css N). cbn [field_of_cells f_a f_ring fst snd].
+  destruct (roundtrip_no_ring cs W H) as [w [Hw [Ha [Hb _]]]].
+  destruct (proj1 (written_decodes cs W H)) as [w' [Hw' Hs]].
+  rewrite Hw in Hw'. inversion Hw'; subst w'.
+  exists w. rewrite Hw. auto.
+Qed.
